@@ -137,6 +137,11 @@ def run(rep, tier, rng):
                     add(f"check_hrr_sign {c.zlist(v)} {obs_t(osc, enc_preds)}",
                         {"op": "hrr-sign-scaled", "alg": "AHrr", "v": v, "kind": f"{kind} * 2**{e2}", "obs": c.obs_json(osc), "py": f"preds(A.sign(v * 2.0 ** {e2}))"},
                         ("hrr-sign-scaled", tuple(v), e2), nontrivial=any(v))
+            if d <= 12:
+                oint = c.observe(lambda: preds(H.sign(np.array(v, dtype=int))))      # integer-typed array
+                add(f"check_hrr_sign {c.zlist(v)} {obs_t(oint, enc_preds)}",
+                    {"op": "hrr-sign-int-dtype", "alg": "AHrr", "v": v, "kind": kind, "obs": c.obs_json(oint), "py": "preds(A.sign(np.array(v, dtype=int)))"},
+                    ("hrr-sign-int", tuple(v)), nontrivial=any(v))
             o2 = c.observe(lambda: preds(SemanticPointer(vf).sign()))
             add(f"check_hrr_sign {c.zlist(v)} {obs_t(o2, enc_preds)}",
                 {"op": "sp-sign", "alg": "AHrr", "v": v, "kind": kind, "obs": c.obs_json(o2), "py": "preds(SemanticPointer(v).sign())"},
